@@ -420,17 +420,21 @@ open ConfModel.ConnectJson ConfModel.ConnectJsonSpec
 
 /-! ### tables of the code, regenerated on every run -/
 
+/-- `connect.Code(1..16).String()` are the model's code names; `Code(0)` and `Code(17)` are not among them -/
 theorem connectCodeNames_table :
     Generated.C13.connectCodeNames.map bs = codeNames ∧
     ∀ s ∈ Generated.C13.connectCodeOutside, codeNames.contains (bs s) = false := by decide
 
 set_option maxRecDepth 100000 in
+/-- `protoreflect.FullName.IsValid` on every one-byte name and on `"a"` followed by every byte -/
 theorem fullName_tables :
     Generated.C13.fullNameFirstTable = (List.range 256).map (fun n => validFullName [UInt8.ofNat n]) ∧
     Generated.C13.fullNameRestTable = (List.range 256).map (fun n => validFullName [97, UInt8.ofNat n]) := by
   decide
 
 set_option maxRecDepth 100000 in
+/-- `base64.RawStdEncoding.DecodeString` on every doubled byte and on `"QQ"` followed by every byte
+(alphabet, CR / LF skipping, `=` rejected) -/
 theorem rawStd_tables :
     Generated.C13.rawStdPairTable =
       (List.range 256).map (fun n => (rawStdDecode [UInt8.ofNat n, UInt8.ofNat n]).isSome) ∧
@@ -497,6 +501,9 @@ alternatives are the three messages of the generic layer at which `examineJSON` 
 theorem connect_error_malformation_flagged (dbg : DebugOracle) (doc : Json) :
     ∀ alts ∈ mustFlagError doc, ∃ f ∈ alts, f ∈ examineConnectError dbg doc := error_demands dbg doc
 
+/-- Each demand of `mustFlagEndStream` - unknown key, duplicate key at any depth, `error` or
+`metadata` that is not an object, invalid metadata name, metadata entry that is not an array,
+non-string or invalid metadata value, and every malformation of the enclosed error - is met. -/
 theorem connect_end_stream_malformation_flagged (dbg : DebugOracle) (doc : Json) :
     ∀ alts ∈ mustFlagEndStream doc, ∃ f ∈ alts, f ∈ examineConnectEndStream dbg doc := end_demands dbg doc
 
@@ -515,6 +522,7 @@ theorem connect_error_spec (dbg : DebugOracle) (doc : Json) :
     | nil => exact absurd hx this
     | cons a t => rfl
 
+/-- The property's predicate holds of `examineConnectEndStream`'s output on every document. -/
 theorem connect_end_stream_spec (dbg : DebugOracle) (doc : Json) :
     endStreamHolds dbg doc (examineConnectEndStream dbg doc) = true := by
   unfold endStreamHolds demandsMet
